@@ -958,6 +958,7 @@ PROPS = {
     "C14": dict(
         retry_on_failure=True,
         suites=["c14", "c14est", "c14live", "c14qt"],
+        borrowed_suites={"c17restart": ["stalled_download_not_timed_out", "spin_or_hang", "no_progress"]},
         judge=judge_c14,
         level="proof",
         rule="the same machinery as C02 with every delay drawn from {0, T/4, T/2, 3T/4, T-1, T, T+1, 5T/4, 2T-1, 2T, 2T+1, 3T}: one-sided "
@@ -983,7 +984,8 @@ PROPS = {
              " Two more clients that never finish: one complete TLS record holding the first 32 bytes of the hello's handshake message, then silence; one complete record of another type, then silence"
              " One-sided traffic (in c14live): over real HTTP/1.1 and HTTP/2 codecs, the client - or the origin - sends a byte every T/3 for 3T while the other side is silent: the silent direction's timer fires and restarts the pipe's loops again and again, the tunnel must stay up and every byte arrive"
              " Abandoned connects (suite c14live): CONNECT over HTTP/1.1 and HTTP/2 through the real direct forwarder to a loopback listener whose accept queue is full, establishment timeout 400 ms: the error comes no earlier than the timeout, and 300 ms later no socket of the process is in SYN_SENT towards that destination (/proc/net/tcp)"
-             " Half-closed and stalled (24 directed shapes, 72 thorough): one direction ended at once, the other's sink takes part of a chunk and is then never writable while the source is silent - exchange() must return TimedOut (a run still going after 60 T is reported as hung)",
+             " Half-closed and stalled (24 directed shapes, 72 thorough): one direction ended at once, the other's sink takes part of a chunk and is then never writable while the source is silent - exchange() must return TimedOut (a run still going after 60 T is reported as hung)"
+             " Stalled forwarded downloads (suite c17restart, borrowed): the origin's head and first body bytes in one segment, the client takes 0-5 bytes and then refuses, everybody silent: exchange() must end with TimedOut between T and 2.5 T after the last activity, having offered the pending bytes to the refusing sink at most 4 times (no busy loop)",
         explanation="theorems idle_not_early, idle_bound_2T, progress_at_deadline_keeps_open, wf_step about the Timer model of "
                     "TT/Model/Pipe.lean; establishment_timeout_reported, establishment_in_time_connected, "
                     "establishment_timeout_destination_independent about TT.Dispatch.handle (the request path model of C10); "
@@ -1089,7 +1091,8 @@ PROPS = {
              ' HTTP/3 part (suite c01h3, wall clock): 150 (thorough 1200) sessions of 1-3 concurrent request streams through the real Core::listen on a loopback UDP port (QUIC multiplexer, HTTP/3 codec, Tunnel, HttpDownstream; quiche client of the harness; SNI credentials travel as <credentials>.localhost in the QUIC ClientHello), same authenticators, authorities, Proxy-Authorization forms and immediate connect outcomes, same query format and model'
              " The registry has a client with a mixed-case name (Alice / S3cret); the Proxy-Authorization pool has the pair as configured and re-cased / padded spellings of it and of user:pass (alice, ALICE, s3cret, User, 'pass ')"
              " Borrowed: the plain-HTTP forwarding suite of C17 (c17), for request bytes that leave the endpoint beyond the authorised request (a third of the generated requests with a declared length carry a pipelined next request behind their body)"
-             " One session in three carries an end-to-end Authorization header on every request (valid credentials of a configured client, a Bearer token, other Basic credentials): it never passes the gate and never spoils a connection accepted by its SNI",
+             " One session in three carries an end-to-end Authorization header on every request (valid credentials of a configured client, a Bearer token, other Basic credentials): it never passes the gate and never spoils a connection accepted by its SNI"
+             " One session in four carries a header that only begins like a ping marker (x-ping: 10, 1.0, 11, \\"1, 1\\"; sec-fetch-mode: navigate-nested, ...): it is a tunnel request like any other and goes through the gate",
         explanation="theorems gate_sound, policy_authenticated_only_if_accepted, registry_accepts_iff, reject_is_407_no_egress, "
                     "egress_only_after_pass, registry_no_egress_without_credentials, decision_history_independent about TT/Model/Dispatch.lean",
         trusted=["HTTP/3 is driven live (a sample of sessions over real QUIC on loopback): quiche on both sides is trusted, and timing there is the wall clock",
@@ -1112,7 +1115,8 @@ PROPS = {
              "0xff), with a reply of version 4, or closes: exactly one final response, status and warning compared with socksOutcome."
              " HTTP/3 part (suite c10h3, wall clock): 150 (thorough 1200) sessions of 1-3 concurrent request streams through the real Core::listen on a loopback UDP port (QUIC multiplexer, HTTP/3 codec, Tunnel, HttpDownstream; quiche client of the harness; SNI credentials travel as <credentials>.localhost in the QUIC ClientHello), same authenticators, authorities, Proxy-Authorization forms and immediate connect outcomes, same query format and model"
              " HTTP/1.1 CONNECTs are sent authority-form, origin-form (`CONNECT /` with the authority in Host) and absolute-form: the destination is the same authority - without a port it is refused whatever the form"
-             " OS errors of the outbound connect: 11 error numbers (ENETUNREACH, EHOSTUNREACH, EHOSTDOWN, ENETDOWN, ETIMEDOUT, ECONNREFUSED, ...) x CONNECT to an IPv4 and an IPv6 literal and a plain-HTTP GET through the real direct forwarder, compared with connErrOfErrno (whose lists the translator reads from io_to_connection_error; theorem os_error_codes)",
+             " OS errors of the outbound connect: 11 error numbers (ENETUNREACH, EHOSTUNREACH, EHOSTDOWN, ENETDOWN, ETIMEDOUT, ECONNREFUSED, ...) x CONNECT to an IPv4 and an IPv6 literal and a plain-HTTP GET through the real direct forwarder, compared with connErrOfErrno (whose lists the translator reads from io_to_connection_error; theorem os_error_codes)"
+             " User-Agent of the session: absent, ASCII, UTF-8 text, bytes that are no text (the value is handed to the forwarder when it is text): the answer does not depend on it; sessions with near-miss ping markers as for C01",
         explanation="os_error_codes (lists regenerated from io_to_connection_error); theorems exactly_one_final, codes_documented, outcome_codes, socks_upstream_codes, connect_result, reserved_never_resolved, "
                     "lookalikes_are_hosts, connect_without_port_refused, health_and_mux_accepted about TT/Model/Dispatch.lean with "
                     "statusOf / warnOf / reserved names regenerated from http_downstream.rs on every run",
@@ -1240,7 +1244,8 @@ PROPS = {
              " Responses carry Connection headers that nominate other fields of the response (X-Thing, SERVER, Set-Cookie, Content-Type, Upgrade) in their own spelling, ahead of those fields and behind them; a third of the requests with a declared length have more body bytes than declared (theorem connection_nominated_headers_removed)"
              " Timer restarts (suite c17restart): POSTs over HTTP/1.1, 2, 3 whose body pauses for 4/3 ... 5/2 of the idle timeout while the origin sends an interim response every T/2: the pipe's loops are restarted under the pending read of the body, and the origin must still get all of it"
              " The flow-control credit handed to the client's request-body source (consume calls logged by the scripted source) is part of every compared answer: never ahead of what was read from it, and in the end exactly the body bytes the origin accepted (theorem request_credit_exact) - a third of the cases have an origin that accepts the request in pieces of 0-20 bytes"
-             " Response direction across timer restarts (suite c17restart): 5 shapes of a POST whose body trickles in (one byte every T/10) while the client takes 0-25 of the 26 response body bytes and then nothing for 1.2-3.5 T: the whole body must still be delivered",
+             " Response direction across timer restarts (suite c17restart): 5 shapes of a POST whose body trickles in (one byte every T/10) while the client takes 0-25 of the 26 response body bytes and then nothing for 1.2-3.5 T: the whole body must still be delivered"
+             " Stalled forwarded downloads (see C14): 5 shapes over HTTP/1.1, 2, 3, plain and chunked bodies",
         explanation="request_credit_exact, head_in_pieces_not_credited (flow-control credit of the request body under every acceptance schedule); theorems segmentation_and_backpressure_independent, independent_after_origin_close, delivery_monotone, "
                     "chunked_body_delivered_exactly, content_length_body_delivered_exactly, close_delimited_body_delivered_exactly, "
                     "bodiless_response_ends_with_head, head_204_304_are_bodiless, interim_response_is_transparent, "
